@@ -67,13 +67,22 @@ def cfgOfString (s : String) : Option (Option Config) :=
 
 /-- prediction for save(name) / load(name) evaluated in cur/ -/
 def fsModel (cfg : Option Config) (op : String) (name : Bytes) : FObs :=
-  let isSave := op == "save"
+  let isSave := op == "save" || op == "save0"
   -- image.new(name,2,2); image.save(name): registered in every configuration, fixed file name
   if op == "img" then ⟨.ok [], [('C', str "cur/grol.png")]⟩ else
+  -- exec("touch", name) / run("touch", name): the functions exist only when IO is unrestricted
+  if op == "exec" || op == "run" then
+    (match cfg with
+     | some ⟨true, _⟩ =>
+       (match resolve name with
+        | some comps => if (treeFiles.lookup (joinSlash comps)).isSome then ⟨.ok [], []⟩ else ⟨.ok [], [('C', joinSlash comps)]⟩
+        | none => ⟨.ok [], []⟩)
+     | _ => ⟨.err, []⟩) else
   match cfg with
   | none => ⟨.err, []⟩
   | some c =>
-    match sanitize c (some name) with
+    -- save() / load(): no argument
+    match sanitize c (if op == "save0" || op == "load0" then none else some name) with
     | none => ⟨.err, []⟩
     | some f =>
       match resolve f with
@@ -103,7 +112,11 @@ def stmtS (cfg : Config) (o : Option Bytes) : Bool :=
 def curPrefix : Bytes := str "cur/"
 
 def stmtF (cfg : Option Config) (op : String) (o : FObs) : Bool :=
-  let isSave := op == "save"
+  let isSave := op == "save" || op == "save0"
+  -- "the process-execution functions do not exist": an error and an untouched tree unless IO is unrestricted
+  if op == "exec" || op == "run" then
+    (match cfg with | some c => c.unrestricted | none => false) || (o.res == .err && o.touched.isEmpty)
+  else
   if op == "img" then
     (match cfg with | some c => c.unrestricted | none => false) ||
       o.touched.all (fun (k, p) => (k == 'C' || k == 'M') && p == str "cur/grol.png")
@@ -160,7 +173,7 @@ def runCase (inp obs : String) : CaseResult :=
   | ["f", c, op, n] =>
     match cfgOfString c, bytesOfHex n, parseFObs obs with
     | some cfg, some name, some io =>
-      if op != "save" && op != "load" && op != "img" then CaseResult.badLine else
+      if !["save", "load", "img", "exec", "run", "save0", "load0"].contains op then CaseResult.badLine else
       let mo := fsModel cfg op name
       { model := mo.render, agree := mo == io, stmtModel := stmtF cfg op mo, stmtImpl := stmtF cfg op io,
         tags := [s!"f-cfg{c}-{op}-" ++ (match mo.res with | .err => "err" | .ok _ => "ok")],
